@@ -40,6 +40,12 @@ type engine struct{}
 func (engine) Name() string { return "storesim" }
 
 func (engine) Run(prop string, seed uint64, tier string, replay *core.Schedule) (*core.Schedule, *core.Result) {
+	if prop == "C07" && ((replay != nil && replay.Engine == "chainsim") || (replay == nil && seed%3 == 2)) {
+		// every third seed: the same question asked of a whole node (application-level crash images)
+		if e, ok := core.Engines["chainsim"]; ok {
+			return e.Run(prop, seed, tier, replay)
+		}
+	}
 	switch prop {
 	case "C01", "C02":
 		return runKV(prop, seed, tier, replay)
